@@ -93,7 +93,21 @@ class Engine:
                         return None
                     out |= ws
             return out
-        return Facts(cfg, writes_of, start)
+        def recv_writes(n: Node):
+            """Attributes a fully resolved method call may assign on its
+            (non-self) receiver; None = unknown."""
+            res: Resolution = n.extra.get('res')
+            if res is None or not res.targets or res.externals or \
+                    res.unresolved or n.extra.get('partial'):
+                return None
+            out: Set[str] = set()
+            for t in res.targets:
+                ws = self.cg.self_writes(t.ctx())
+                if '*' in ws:
+                    return None
+                out |= ws
+            return out
+        return Facts(cfg, writes_of, start, recv_writes)
 
     # --------------------------------------------------------- predicates
     @staticmethod
